@@ -1,8 +1,17 @@
 (* Props/C13.v -- property theorems only: Theorem / exact lemma / Check (pins the statement) / Print Assumptions.
    C13: complex arithmetic is exact field arithmetic; operator variants and the ordering agree.
-   The model is Model/Complex.v (every operator impl of src/complex/mod.rs as its own function).
-   Not proved here: the "few ulps" accuracy of the f64 instantiation for the code's own arithmetic
-   (tie + search; see cmul_rounding_bound below for the rounding-model statement, if present). *)
+   The model is Model/Complex.v (every operator impl of src/complex/mod.rs as its own function; the compound
+   assignments as the statement sequences of the source).  Contents:
+     exact half   complex_ring, complex_identities, conj_abs_sqr_laws, mixed_real_forms, cdiv_cancel / _formula /
+                  _unique / _panics_iff / _real_scalar / _one, complex_field (formally real F)      -- abstract ring / field
+     variants     assign_eq_binary (any arithmetic with commutative +), assign_eq_binary_any_arith (no law),
+                  assign_eq_binary_float (the float instance: bit for bit)
+     ordering     cmp_total, cmp_trans, cmp_equal_iff_eq, cmp_derived_ops                           -- any strict total order
+     instances    complex_Qc_ring, complex_Qc_field, cdiv_Qc, cmp_total_Qc (closed); complex_R_field, cabs_laws (R axioms)
+     few ulps     cmul_ / cadd_csub_ / abs_sqr_cmul_r_ / cdiv_rounding_bound: for the FLOAT INSTANCE of the model
+                  (Coq primitive binary64 through Flocq), no overflow / subnormal intermediate.
+   Not proved: that Rust's f64 operations are these IEEE operations (assumption; every float case of the tie is
+   bit-identical), accuracy of abs (sqrt) and of z / r, behaviour on overflow / underflow. *)
 From Coq Require Import List Arith Bool Ring_theory Field_theory QArith Qcanon Reals Lra Lia.
 From Flocq Require Import Core.
 From OV Require Import Base.Panic Base.Arith Model.Complex Inst.QcInst Inst.FloatInst Proofs.Complex Proofs.ComplexQc Proofs.ComplexFloat Proofs.ComplexField Proofs.ComplexRound Proofs.ComplexR.
@@ -414,4 +423,56 @@ Example cdiv_rounding_bound_nonvacuous_at :
   in_range (b * c) /\ in_range (a * d) /\ in_range (rnd64 (b * c) - rnd64 (a * d)) /\
   in_range (R1 / D1) /\ in_range (I1 / D1).
 Proof. exact cdiv_rounding_bound_nonvacuous. Qed.
+
+(* negation and conjugation are exact; z / r (and z /= r) divides each component once; the modulus
+   |z| = fl(sqrt(fl(fl(a*a) + fl(b*b)))) of Complex::<f64>::abs has relative error g + u(1+g), g = 2u + u^2 (about 3u) *)
+Theorem cneg_conj_exact : forall z : cplx AF,
+  FR (re (cneg z)) = (- FR (re z))%R /\ FR (im (cneg z)) = (- FR (im z))%R /\
+  re (conj z) = re z /\ FR (im (conj z)) = (- FR (im z))%R.
+Proof. intros z. exact (cneg_conj_exact_lemma z). Qed.
+Check cneg_conj_exact : forall z : cplx AF,
+  FR (re (cneg z)) = (- FR (re z))%R /\ FR (im (cneg z)) = (- FR (im z))%R /\
+  re (conj z) = re z /\ FR (im (conj z)) = (- FR (im z))%R.
+Print Assumptions cneg_conj_exact.
+Print Assumptions cplx_ext. (* closed; ends the axiom list above for the audit's output parser *)
+
+Theorem cdiv_r_rounding_bound : forall (z : cplx AF) (r : AF),
+  let a := FR (re z) in let b := FR (im z) in let s := FR r in
+  ffinite (re z) -> ffinite (im z) -> s <> 0%R -> in_range (a / s) -> in_range (b / s) ->
+  exists q, cdiv_r z r = Ok q /\ cdiv_assign_r z r = Ok q /\ ffinite (re q) /\ ffinite (im q) /\
+  (Rabs (FR (re q) - a / s) <= u64 * Rabs (a / s))%R /\ (Rabs (FR (im q) - b / s) <= u64 * Rabs (b / s))%R.
+Proof. intros z r. exact (cdiv_r_rounding_bound_lemma z r). Qed.
+Check cdiv_r_rounding_bound : forall (z : cplx AF) (r : AF),
+  let a := FR (re z) in let b := FR (im z) in let s := FR r in
+  ffinite (re z) -> ffinite (im z) -> s <> 0%R -> in_range (a / s) -> in_range (b / s) ->
+  exists q, cdiv_r z r = Ok q /\ cdiv_assign_r z r = Ok q /\ ffinite (re q) /\ ffinite (im q) /\
+  (Rabs (FR (re q) - a / s) <= u64 * Rabs (a / s))%R /\ (Rabs (FR (im q) - b / s) <= u64 * Rabs (b / s))%R.
+Print Assumptions cdiv_r_rounding_bound.
+Print Assumptions cplx_ext. (* closed; ends the axiom list above for the audit's output parser *)
+
+Theorem cabs_rounding_bound : forall z : cplx AF,
+  let a := FR (re z) in let b := FR (im z) in
+  ffinite (re z) -> ffinite (im z) -> (0 < a * a + b * b)%R ->
+  in_range (a * a) -> in_range (b * b) -> in_range (rnd64 (a * a) + rnd64 (b * b)) ->
+  no_underflow (R_sqrt.sqrt (rnd64 (rnd64 (a * a) + rnd64 (b * b)))) ->
+  (Rabs (FR (@cabs SAF z) - R_sqrt.sqrt (a * a + b * b)) <=
+    ((2 * u64 + u64 * u64) + u64 * (1 + (2 * u64 + u64 * u64))) * R_sqrt.sqrt (a * a + b * b))%R.
+Proof. intros z. exact (cabs_rounding_bound_lemma z). Qed.
+Check cabs_rounding_bound : forall z : cplx AF,
+  let a := FR (re z) in let b := FR (im z) in
+  ffinite (re z) -> ffinite (im z) -> (0 < a * a + b * b)%R ->
+  in_range (a * a) -> in_range (b * b) -> in_range (rnd64 (a * a) + rnd64 (b * b)) ->
+  no_underflow (R_sqrt.sqrt (rnd64 (rnd64 (a * a) + rnd64 (b * b)))) ->
+  (Rabs (FR (@cabs SAF z) - R_sqrt.sqrt (a * a + b * b)) <=
+    ((2 * u64 + u64 * u64) + u64 * (1 + (2 * u64 + u64 * u64))) * R_sqrt.sqrt (a * a + b * b))%R.
+Print Assumptions cabs_rounding_bound.
+Print Assumptions cplx_ext. (* closed; ends the axiom list above for the audit's output parser *)
+(* non-vacuity of the last two: z = 1.5 + 2i, r = -0.5 *)
+Example cdiv_r_cabs_rounding_bound_nonvacuous :
+  let z := @mkC AF (FloatInst.fz false 3 (-1)) (FloatInst.fz false 2 0) in let r : AF := FloatInst.fz true 1 (-1) in
+  let a := FR (re z) in let b := FR (im z) in let s := FR r in
+  ffinite (re z) /\ ffinite (im z) /\ s <> 0%R /\ in_range (a / s) /\ in_range (b / s) /\
+  (0 < a * a + b * b)%R /\ in_range (a * a) /\ in_range (b * b) /\ in_range (rnd64 (a * a) + rnd64 (b * b)) /\
+  no_underflow (R_sqrt.sqrt (rnd64 (rnd64 (a * a) + rnd64 (b * b)))).
+Proof. exact cdiv_r_cabs_rounding_bound_nonvacuous_lemma. Qed.
 
